@@ -215,16 +215,21 @@ class EightDotThree:
 
         dir_name = dir_name.upper()
         # Shorten to 8 chars; strip invalid characters
-        basename = os.path.splitext(dir_name)[0][0:8].strip()
+        basename = os.path.splitext(dir_name)[0].strip()[0:8]
         basename = basename.encode(parent_dir_entry._encoding,
                                    errors="replace")
         basename = map_chars(basename).decode(parent_dir_entry._encoding)
 
         # Shorten to 3 chars; strip invalid characters
-        extname = os.path.splitext(dir_name)[1][1:4].strip()
+        extname = os.path.splitext(dir_name)[1][1:].strip()[0:3]
         extname = extname.encode(parent_dir_entry._encoding,
                                  errors="replace")
         extname = map_chars(extname).decode(parent_dir_entry._encoding)
+
+        if len(basename) == 0:
+            # The name consists of an extension only (i.e. " .a"),
+            # use the extension as the name and set no extension
+            basename, extname = extname, ""
 
         if len(extname) == 0:
             extsep = ""
